@@ -29,3 +29,68 @@ pub fn alphabet_model(id: &str, ns: &str, name: &str, builds: bool) -> String {
     type_ref = type_ref
   )
 }
+
+fn toks(j: &serde_json::Value) -> String {
+  j.as_array().map(|a| a.iter().map(|t| t.as_str().unwrap_or("").trim_start_matches('~').to_string()).collect::<Vec<_>>().join(" ")).unwrap_or_default()
+}
+
+/// `<decisionTable>` element for a table in the Gen_C03 record format.
+pub fn decision_table_xml(t: &serde_json::Value) -> String {
+  let (hp, agg) = match t["hp"].as_str().unwrap_or("U") {
+    "U" => ("UNIQUE", ""),
+    "A" => ("ANY", ""),
+    "P" => ("PRIORITY", ""),
+    "F" => ("FIRST", ""),
+    "R" => ("RULE ORDER", ""),
+    "O" => ("OUTPUT ORDER", ""),
+    "C" => ("COLLECT", ""),
+    "C+" => ("COLLECT", "SUM"),
+    "C<" => ("COLLECT", "MIN"),
+    "C>" => ("COLLECT", "MAX"),
+    _ => ("COLLECT", "COUNT"),
+  };
+  let mut s = format!("<decisionTable hitPolicy=\"{}\"{}>", hp, if agg.is_empty() { String::new() } else { format!(" aggregation=\"{}\"", agg) });
+  for i in t["ins"].as_array().unwrap() {
+    s.push_str(&format!("<input><inputExpression><text>{}</text></inputExpression>", esc(i["name"].as_str().unwrap())));
+    if i["allowed"]["n"] != "none" {
+      s.push_str(&format!("<inputValues><text>{}</text></inputValues>", esc(&toks(&i["allowedtext"]))));
+    }
+    s.push_str("</input>");
+  }
+  for o in t["outs"].as_array().unwrap() {
+    let name = o["name"].as_str().unwrap_or("");
+    s.push_str(&if name.is_empty() { "<output>".to_string() } else { format!("<output name=\"{}\">", esc(name)) });
+    if !o["prio"].as_array().map(|a| a.is_empty()).unwrap_or(true) {
+      s.push_str(&format!("<outputValues><text>{}</text></outputValues>", esc(&toks(&o["priotext"]))));
+    }
+    if o["def"]["k"] != "none" {
+      s.push_str(&format!("<defaultOutputEntry><text>{}</text></defaultOutputEntry>", esc(&toks(&o["deftext"]))));
+    }
+    s.push_str("</output>");
+  }
+  for r in t["rules"].as_array().unwrap() {
+    s.push_str("<rule>");
+    for e in r["instext"].as_array().unwrap() {
+      s.push_str(&format!("<inputEntry><text>{}</text></inputEntry>", esc(&toks(e))));
+    }
+    for e in r["outstext"].as_array().unwrap() {
+      s.push_str(&format!("<outputEntry><text>{}</text></outputEntry>", esc(&toks(e))));
+    }
+    s.push_str("</rule>");
+  }
+  s.push_str("</decisionTable>");
+  s
+}
+
+/// A model with one decision `d` holding the table; its inputs are input data elements of the declared types.
+pub fn table_model_xml(t: &serde_json::Value) -> String {
+  let mut s = format!("<?xml version=\"1.0\" encoding=\"UTF-8\"?>\n<definitions xmlns=\"{}\" namespace=\"ns\" name=\"m\" id=\"M\">", DMN_NS);
+  let mut reqs = String::new();
+  for (k, i) in t["ins"].as_array().unwrap().iter().enumerate() {
+    let name = esc(i["name"].as_str().unwrap());
+    s.push_str(&format!("<inputData name=\"{}\" id=\"i{}\"><variable name=\"{}\" typeRef=\"{}\"/></inputData>", name, k, name, i["ty"].as_str().unwrap_or("number")));
+    reqs.push_str(&format!("<informationRequirement><requiredInput href=\"#i{}\"/></informationRequirement>", k));
+  }
+  s.push_str(&format!("<decision name=\"d\" id=\"d\"><variable name=\"d\"/>{}{}</decision></definitions>", reqs, decision_table_xml(t)));
+  s
+}
